@@ -600,7 +600,7 @@ def list_of_map(ip, st, lm):
     probe = st.fork()
     probe.assume(tm.And(tm.Le(tm.Int(0), i), tm.Lt(i, n)))
     normal = []
-    for s1, r in ip.call(probe, f, [el(i)], {}):
+    for s1, r in ip.call(probe.fork(), f, [el(i)], {}):
         if isinstance(r, Raise):
             s2 = st.fork()
             for c in s1.pc:
@@ -854,7 +854,7 @@ def quant_map(ip, st, lm, is_all):
     inner.assume(guard)
     e = tm.Nth(xs.term, i)
     terms, raised = [], []
-    for s1, v in ip.call(inner, lm.func, [L.elem_value(xs.kind, e)], {}):
+    for s1, v in ip.call(inner.fork(), lm.func, [L.elem_value(xs.kind, e)], {}):
         extra = tm.And(*[c for c in s1.pc if c not in inner.facts])
         if isinstance(v, Raise):
             raised.append((extra, v))
@@ -880,8 +880,8 @@ def quant_genexp(ip, st, e, is_all):
 
 def _quant_gen(ip, st, e, gens, k, is_all, bvars, guards):
     if k == len(gens):
-        # evaluate body under bound variables
-        results = list(ip.eval(e.elt, st))
+        # evaluate body under bound variables (on a copy: `st` must keep exactly the binder's guard)
+        results = list(ip.eval(e.elt, st.fork()))
         return_terms = []
         raised = []
         for s1, v in results:
